@@ -60,9 +60,12 @@ type Case struct {
 	// WithdrawFault[i]: party i's first Withdraw call on the ledger fails
 	// without effect (the chain was not reachable); the party repeats Settle
 	WithdrawFault [2]bool `json:"withdrawfault,omitempty"`
-	Rush          bool    `json:"rush,omitempty"`
-	RushBy        int     `json:"rushby,omitempty"`
-	RushHold      int     `json:"rushhold,omitempty"`
+	// NoWatch[i]: party i never calls Channel.Watch (it learns about
+	// registrations only when it settles itself)
+	NoWatch  [2]bool `json:"nowatch,omitempty"`
+	Rush     bool    `json:"rush,omitempty"`
+	RushBy   int     `json:"rushby,omitempty"`
+	RushHold int     `json:"rushhold,omitempty"`
 }
 
 func drawCase(t *rapid.T) Case {
@@ -124,6 +127,9 @@ func drawCase(t *rapid.T) Case {
 		c.Order, c.Concurrent = []int{0, 1}, true
 	}
 	c.Secondary = [2]bool{rapid.Bool().Draw(t, "sec0"), rapid.Bool().Draw(t, "sec1")}
+	if rapid.IntRange(0, 4).Draw(t, "nowatch") == 0 {
+		c.NoWatch = [2]bool{rapid.Bool().Draw(t, "nw0"), rapid.Bool().Draw(t, "nw1")}
+	}
 	if rapid.IntRange(0, 3).Draw(t, "wfault") == 0 {
 		c.WithdrawFault = [2]bool{rapid.Bool().Draw(t, "wf0"), rapid.Bool().Draw(t, "wf1")}
 	}
@@ -226,7 +232,10 @@ func runCase(c Case) (o *h.Outcome) {
 		o.Fail = h.Failf(sig, format, args...)
 		return o
 	}
-	pr, err := sim.NewPair(serializer(c.Ser), 0, 1, true)
+	pr, err := sim.NewPairOpt(serializer(c.Ser), 0, 1, [2]bool{!c.NoWatch[0], !c.NoWatch[1]})
+	if c.NoWatch[0] || c.NoWatch[1] {
+		o.Class("party-without-watcher")
+	}
 	if err != nil {
 		return fail("harness", "creating parties: %v", err)
 	}
